@@ -100,6 +100,18 @@ example : (runOuts World.empty
      .inplace 0 7, .condition_ 2 4, .call 2]).2.getLast? = some (.obs [⟨.lit 7, 0, false⟩, ⟨.pred 1 4, 0, false⟩]) := by
   decide
 
+/-- re-base on the repair of F-15f/g (`CompositeTransform.__copy__` copies the children): conditioning a
+    shallow copy of a composite (`composite.condition(c)`) leaves the ORIGINAL composite's members on
+    their old conditioning (`pred 1 0`), the copy (object 3, children 4 and 5) uses the new one; the child
+    copies still share parameter tensors with the original's children (in-place edit of object 4 is seen by
+    object 0's call). -/
+example : (runOuts World.empty
+    [.mk (.dvf true) .buffer 3 0, .mk .ffd (.fn 1) 4 0, .mkcomp .seq [0, 1] 0, .condCopy 2 4, .disp 2, .disp 3,
+     .inplace 4 9, .call 2]).2
+    = [.new 0, .new 1, .new 2, .new 3, .obs [⟨.lit 3, 0, false⟩, ⟨.pred 1 0, 0, false⟩],
+       .obs [⟨.lit 3, 0, false⟩, ⟨.pred 1 4, 0, false⟩], .ok, .obs [⟨.lit 9, 0, false⟩, ⟨.pred 1 0, 0, false⟩]] := by
+  decide
+
 /-- non-vacuity: a concrete history (construct, evaluate, in-place edit, replace data, re-grid)
     after which the call observes version 9 on grid 1 — not the snapshot taken earlier. -/
 example : (runOuts World.empty
